@@ -174,6 +174,42 @@ func (r *Run) WaitResult(watchdog time.Duration) bool {
 	return true
 }
 
+// WaitEndOrWedge waits for the value of Wait(). progress() is a counter of externally visible
+// events (requests served + units delivered). When the counter has not moved for idleSlices x
+// 100 ms and every client goroutine is parked on a channel, a select or a lock (none running,
+// sleeping or doing I/O) the client is deadlocked: nothing but Close can make it move again. That is
+// reported as wedged together with the goroutine census. A stall in which some client goroutine is
+// still runnable, sleeping or in I/O, and the overall bound, are inconclusive (ended == wedged == false).
+func (r *Run) WaitEndOrWedge(progress func() int, idleSlices int, bound time.Duration) (ended, wedged bool, census []string) {
+	deadline := time.Now().Add(bound)
+	last, idle := progress(), 0
+	for time.Now().Before(deadline) {
+		if r.WaitResult(100 * time.Millisecond) {
+			return true, false, nil
+		}
+		if cur := progress(); cur != last {
+			last, idle = cur, 0
+			continue
+		}
+		idle++
+		if idle >= idleSlices {
+			cs := Census()
+			allParked := len(cs) > 0
+			for _, l := range cs {
+				if !(strings.Contains(l, "[chan send") || strings.Contains(l, "[chan receive") || strings.Contains(l, "[select") ||
+					strings.Contains(l, "[semacquire") || strings.Contains(l, "[sync.")) {
+					allParked = false
+				}
+			}
+			if allParked && progress() == last {
+				return false, true, cs
+			}
+			idle = idleSlices / 2
+		}
+	}
+	return false, false, nil
+}
+
 // Snapshot returns a consistent copy of the delivered units.
 func (r *Run) Snapshot() ([]*gohlslib.Track, []Unit, [][]int) {
 	r.mu.Lock()
